@@ -496,6 +496,11 @@ func (ex *Exec) harnessPrim(fr *frame, st *State, fn *ssa.Function, args []Value
 	case "vReach":
 		ex.VCs = append(ex.VCs, &VC{Label: concreteStringArg(args[0]), Guard: st.G, Cond: args[1].(*term.Term), Kind: "reach", Site: ex.posOf(site)})
 		return ret(nil)
+	case "vMust":
+		// like vReach, but the witness is part of the property: it must exist in every run (not just in some run of
+		// the harness function), and its absence is a violation, not vacuity
+		ex.VCs = append(ex.VCs, &VC{Label: concreteStringArg(args[0]), Guard: st.G, Cond: args[1].(*term.Term), Kind: "must", Site: ex.posOf(site)})
+		return ret(nil)
 	case "vKnown":
 		nm := concreteStringArg(args[0])
 		c := args[1].(*term.Term)
